@@ -104,7 +104,7 @@ def gen_rain(rng, n):
             P = -((1 - (5 / 100)) * S)
         P = float(P)
         try:
-            ro, infl, ds = rainfall_partition(P, th, daysub, srinhb, bunds, zbund, pct, cn0, adj, zcn, ncomp, p)
+            ro, infl, ds = rainfall_partition(P, th, daysub, flagtype(rng, srinhb), flagtype(rng, bunds), zbund, pct, cn0, adj, zcn, ncomp, p)
             exp = ["S", hx(ro), hx(infl), str(int(ds))]
             if srinhb or (bunds and not zbund < 0.001):
                 COVER["rp:bunds/sr_inhb"] += 1
